@@ -1,0 +1,31 @@
+//go:build verif
+
+package hermes
+
+// Scheduling pressure for the C03/C11 batch checks of the verification harness: when the
+// environment variable VERIF_SCHED_PRESSURE is set, every day start / sub-step of every run yields
+// the processor (runtime.Gosched), so that concurrent runs of one session interleave at a much
+// finer grain than the scheduler's time slice. The probes only yield; they read and write no model
+// state. Without the variable nothing is installed.
+
+import (
+	"os"
+	"runtime"
+)
+
+func init() {
+	if os.Getenv("VERIF_SCHED_PRESSURE") == "" {
+		return
+	}
+	VerifProbe = &VerifProbes{
+		DayStart: func(g *GlobalVarsMain, w *WaterSharedVars, n *NitroSharedVars, c *CropSharedVars, zeit int, wdt float64) {
+			runtime.Gosched()
+		},
+		AfterWater: func(g *GlobalVarsMain, w *WaterSharedVars, zeit, subd int, wdt, steps float64) {
+			runtime.Gosched()
+		},
+		AfterNitro: func(g *GlobalVarsMain, w *WaterSharedVars, n *NitroSharedVars, zeit, subd int, wdt, steps float64) {
+			runtime.Gosched()
+		},
+	}
+}
